@@ -2,9 +2,11 @@
 
 import io
 import json
+import re
 
 from pydiffx.errors import (DiffXContentError,
                             DiffXOptionValueChoiceError,
+                            DiffXOptionValueError,
                             DiffXSectionOrderError)
 from pydiffx.options import (DiffType,
                              LineEndings,
@@ -44,6 +46,8 @@ class DiffXWriter(object):
     _LEVEL_MAIN = 1
     _LEVEL_CHANGE = 2
     _LEVEL_FILE = 3
+
+    _HEADER_OPTION_VALUE_RE = re.compile(r'[A-Za-z0-9/_.-]+\Z')
 
     def __init__(self, fp, encoding=DEFAULT_ENCODING, version=VERSION):
         """Initialize the writer.
@@ -464,6 +468,12 @@ class DiffXWriter(object):
         section = self._build_section(section_level, section_name)
         self._validate_section(section)
 
+        # Write the header first. If an option value can't be written,
+        # nothing will have changed.
+        self._write_section_header(section=section,
+                                   encoding=encoding,
+                                   **options)
+
         # If we're writing a new section at the current level, or moving up
         # levels, we'll need to pop the appropriate number of sections off
         # the stack.
@@ -473,10 +483,6 @@ class DiffXWriter(object):
         self._stack.append({
             'encoding': encoding or self._cur_encoding,
         })
-
-        self._write_section_header(section=section,
-                                   encoding=encoding,
-                                   **options)
 
     def _new_content_section(self,
                              section_name,
@@ -560,7 +566,20 @@ class DiffXWriter(object):
 
             **options (dict):
                 Additional options to provide in the header.
+
+        Raises:
+            pydiffx.errors.DiffXOptionValueError:
+                An option value can't be represented in a section header.
+                Nothing will have been written.
         """
+        for _key, _value in options.items():
+            if (_value is not None and
+                not self._HEADER_OPTION_VALUE_RE.match('%s' % (_value,))):
+                raise DiffXOptionValueError(
+                    '"%s" cannot be written as a value for %s. Values may '
+                    'only contain letters, digits, "/", "_", ".", and "-".'
+                    % (_value, _key))
+
         options_str = ', '.join(
             '%s=%s' % (_key, _value)
             for _key, _value in sorted(options.items(),
